@@ -19,8 +19,8 @@ PROPERTY = "C07"
 CASE_TIMEOUT_S = 40
 BUDGET = {"quick": 500, "thorough": 1500}
 RULE = ("A scripted stochastic model (world plain / GridWorld / continuous SpaceWorld, wrap on/off; population 3-12 with mixed "
-        "components and tags; system mix from {mover using model.random, picker via get_random_agent with/without template/tag, "
-        "shuffler via shuffle, birth/death driven by model.random}; an AgentCollector; 5-15 timesteps) is run with a generated "
+        "components and tags; system mix from {mover using model.random, picker via get_random_agent with/without template/tag/both, "
+        "shuffler via shuffle with/without template/tag/both, birth/death driven by model.random}; an AgentCollector; 5-15 timesteps) is run with a generated "
         "seed (0, negative, > 2^64, ...) and its FULL trace (system executions, picks, shuffle orders, positions, component "
         "values, collector records) is hashed. Metamorphic oracle: the digest of an undisturbed run must equal the digest under "
         "(a) a top-priority perturber that reseeds/consumes random and numpy.random with generated values before and between "
@@ -71,6 +71,9 @@ class Picker(System):
         elif self.mode == "template":
             cands = env.get_agents(Val)
             a = env.get_random_agent(Val)
+        elif self.mode == "both":
+            cands = env.get_agents(Val, tag=1)
+            a = env.get_random_agent(Val, tag=1)
         else:
             cands = env.get_agents(tag=1)
             a = env.get_random_agent(tag=1)
@@ -80,8 +83,20 @@ class Picker(System):
 
 
 class Shuffler(System):
+    def __init__(self, id, model, mode="plain", **kw):
+        super().__init__(id, model, **kw)
+        self.mode = mode
+
     def execute(self):
-        order = self.model.environment.shuffle()
+        env = self.model.environment
+        if self.mode == "template":
+            order = env.shuffle(Val)
+        elif self.mode == "both":
+            order = env.shuffle(Val, tag=1)
+        elif self.mode == "tag":
+            order = env.shuffle(tag=2)
+        else:
+            order = env.shuffle()
         self.model.trace.append(("shuffle", tuple(a.id for a in order)))
 
 
@@ -180,10 +195,12 @@ class TrajModel(Model):
             if kind == "mover":
                 if world != "plain":
                     self.systems.add_system(Mover(sid, self, priority=10 - k))
-            elif kind in ("picker", "picker_t", "picker_tag"):
-                self.systems.add_system(Picker(sid, self, {"picker": "any", "picker_t": "template", "picker_tag": "tag"}[kind], priority=10 - k))
-            elif kind == "shuffler":
-                self.systems.add_system(Shuffler(sid, self, priority=10 - k))
+            elif kind in ("picker", "picker_t", "picker_tag", "picker_both"):
+                self.systems.add_system(Picker(sid, self, {"picker": "any", "picker_t": "template", "picker_tag": "tag",
+                                                           "picker_both": "both"}[kind], priority=10 - k))
+            elif kind in ("shuffler", "shuffler_t", "shuffler_tag", "shuffler_both"):
+                self.systems.add_system(Shuffler(sid, self, {"shuffler": "plain", "shuffler_t": "template", "shuffler_tag": "tag",
+                                                             "shuffler_both": "both"}[kind], priority=10 - k))
             elif kind == "birthdeath":
                 self.systems.add_system(BirthDeath(sid, self, priority=10 - k))
         if cfg.get("complete_at") is not None:
@@ -320,8 +337,8 @@ def run_hashseed(case):
 def strategy(tier):
     from hypothesis import strategies as st
     seeds = wone_of(st.sampled_from([0, 1, -1, 2 ** 64 + 3, -2 ** 70, 2 ** 64, 2 ** 100 + 7]), st.integers(-10 ** 6, 10 ** 6), st.integers(-2 ** 80, 2 ** 80))
-    kinds = st.lists(st.sampled_from(["mover", "picker", "picker", "picker_t", "picker_tag", "shuffler", "shuffler", "birthdeath"]),
-                     min_size=1, max_size=5)
+    kinds = st.lists(st.sampled_from(["mover", "picker", "picker", "picker_t", "picker_tag", "picker_both", "shuffler", "shuffler",
+                                      "shuffler_t", "shuffler_tag", "shuffler_both", "birthdeath"]), min_size=1, max_size=5)
     cfg = st.fixed_dictionaries({"world": st.sampled_from(["plain", "grid", "space"]), "wrap": st.booleans(), "pop": st.integers(3, 12),
                                  "systems": kinds, "steps": st.integers(5, 15),
                                  "complete_at": st.sampled_from([None, None, None, 2, 4, 7])})
@@ -331,7 +348,7 @@ def strategy(tier):
                                     "batch": st.sampled_from([0, 0, 0, 0, 1, 2, 3])})
     big = st.sampled_from([2 ** 64 + 3, -2 ** 70, 2 ** 64, -2 ** 64, 2 ** 200 + 1, 10 ** 30])
     rich = st.fixed_dictionaries({"world": st.sampled_from(["plain", "grid", "space"]), "wrap": st.booleans(), "pop": st.integers(4, 12),
-                                  "systems": kinds.map(lambda k: ["picker", "shuffler"] + k[:3]), "steps": st.integers(5, 12),
+                                  "systems": kinds.map(lambda k: ["picker", "shuffler", "shuffler_both", "picker_both"] + k[:2]), "steps": st.integers(5, 12),
                                   "complete_at": st.sampled_from([None, None, 3])})
     one = wone_of(st.fixed_dictionaries({"seed": seeds, "cfg": cfg}), st.fixed_dictionaries({"seed": big, "cfg": rich}),
                   st.fixed_dictionaries({"seed": seeds, "cfg": rich}))
